@@ -1,8 +1,160 @@
-(* C12 — exported theorems only: each is closed by [exact] and followed by Print Assumptions. *)
+(* C12 — exported theorems only: each is closed by [exact] and followed by Print Assumptions.
+   Reading aid:  e = (cgroup version, kind of every file, (child file, parent file) edges)
+                 st = (files, ResourceCache);  hyps_ok = hierarchy valid at start and at target,
+                 no file twice in the batch, every file's parent in a strictly upper level, values
+                 well-formed;  coherent = every cache entry that can equal a target equals the file
+                 (true of a fresh executor and preserved, see c12_invariant);
+                 on_q = the file is cpu.max on cgroup v2. *)
 From Coq Require Import List ZArith Bool.
-From Verif Require Import C12.Model C12.Spec C12.Proofs.
+From Verif Require Import C12.Model C12.Spec C12.Proofs_Lattice C12.Proofs_Hist C12.Proofs_Main.
+Import ListNotations.
 Open Scope Z_scope.
 
-Theorem c12_lookup_set : forall m k v k', lookup (set m k v) k' = if k =? k' then Some v else lookup m k'.
-Proof. exact lookup_set. Qed.
-Print Assumptions c12_lookup_set.
+(* crash points: after every prefix of the write sequence of LeveledUpdateBatch the hierarchy is
+   valid — all kinds of files, both cgroup versions, any tree, any coherent cache *)
+Theorem c12_every_prefix_valid : forall e st levels,
+  hyps_ok e (sfs st) levels = true -> coherent (scache st) (sfs st) ->
+  forall pre suf, snd (leveled_update e st levels) = pre ++ suf ->
+                  validb e (apply_writes e pre (sfs st)) = true.
+Proof. exact main_every_prefix_valid. Qed.
+Print Assumptions c12_every_prefix_valid.
+
+(* completion: every file holds its target value, every other file is untouched *)
+Theorem c12_final : forall e st levels,
+  hyps_ok e (sfs st) levels = true -> coherent (scache st) (sfs st) ->
+  (forall k, get (sfs (fst (leveled_update e st levels))) k = get (target_of (sfs st) (concat levels)) k)
+  /\ final_ok (sfs (fst (leveled_update e st levels))) (concat levels)
+  /\ (forall k, ~ In k (map ukey (concat levels)) ->
+        get (sfs (fst (leveled_update e st levels))) k = get (sfs st) k).
+Proof. exact main_final. Qed.
+Print Assumptions c12_final.
+
+(* the hypotheses on the state are an invariant: valid hierarchy, coherent cache, cache frame *)
+Theorem c12_invariant : forall e st levels,
+  hyps_ok e (sfs st) levels = true -> coherent (scache st) (sfs st) ->
+  validb e (sfs (fst (leveled_update e st levels))) = true
+  /\ coherent (scache (fst (leveled_update e st levels))) (sfs (fst (leveled_update e st levels)))
+  /\ (forall k, ~ In k (map ukey (concat levels)) ->
+        lookup (scache (fst (leveled_update e st levels))) k = lookup (scache st) k).
+Proof. exact main_invariant. Qed.
+Print Assumptions c12_invariant.
+
+(* unchanged files are not rewritten and no write is a no-op (files other than cpu.max on v2) *)
+Theorem c12_no_redundant_write : forall e st levels,
+  hyps_ok e (sfs st) levels = true -> coherent (scache st) (sfs st) ->
+  (forall u, In u (concat levels) -> on_q e (ukey u) = false) ->
+  no_redundant e (sfs st) (concat levels) (snd (leveled_update e st levels)).
+Proof. exact main_no_redundant_write. Qed.
+Print Assumptions c12_no_redundant_write.
+
+(* every written content is acceptable for its file (files other than cpu.max on v2) *)
+Theorem c12_legal_writes : forall e st levels,
+  hyps_ok e (sfs st) levels = true -> coherent (scache st) (sfs st) ->
+  (forall u, In u (concat levels) -> on_q e (ukey u) = false) ->
+  legal e (snd (leveled_update e st levels)).
+Proof. exact main_legal_writes. Qed.
+Print Assumptions c12_legal_writes.
+
+(* the decision procedure run on the implementation's observables decides the property *)
+Theorem c12_prop_code_spec : forall e fs levels ws fin,
+  validb e fs = true -> (prop_code e fs levels ws fin = 0 <-> C12_batch e fs levels ws fin).
+Proof. exact prop_code_spec. Qed.
+Print Assumptions c12_prop_code_spec.
+
+Theorem c12_batch_code : forall e st levels,
+  hyps_ok e (sfs st) levels = true -> coherent (scache st) (sfs st) ->
+  (forall u, In u (concat levels) -> on_q e (ukey u) = false) ->
+  prop_code e (sfs st) levels (snd (leveled_update e st levels)) (sfs (fst (leveled_update e st levels))) = 0.
+Proof. exact main_batch_code. Qed.
+Print Assumptions c12_batch_code.
+
+(* all finite histories of LeveledUpdateBatch calls and cache expiries on a fresh executor: the
+   property's code, as Extract.v computes it on the model's own observable, is 0 *)
+Theorem c12_history_holds : forall e fs ops,
+  validb e fs = true -> hist_hyps e (mkSt fs []) ops -> Forall (plain_op e) ops ->
+  hist_code e fs ops (run_hist e (mkSt fs []) ops) = 0.
+Proof. exact main_history_holds. Qed.
+Print Assumptions c12_history_holds.
+
+(* all histories, including cpu.max on v2 and the BE cpuset calls: crash points, final state and
+   frame never fail (the code is 0, 3 or 5) *)
+Theorem c12_history_hard : forall e fs ops,
+  validb e fs = true -> hist_hyps e (mkSt fs []) ops ->
+  soft (hist_code e fs ops (run_hist e (mkSt fs []) ops)) = true.
+Proof. exact main_history_hard. Qed.
+Print Assumptions c12_history_hard.
+
+(* applyCPUSetWithNonePolicy (old ∪ new top-down, then new bottom-up) *)
+Theorem c12_be_two_phase : forall e st paths oldset newset,
+  be_hyps e (sfs st) paths oldset newset = true -> coherent (scache st) (sfs st) -> newset <> 0 ->
+  let res := be_apply e st paths oldset newset in
+  every_prefix_valid e (sfs st) (snd res)
+  /\ (forall k, get (sfs (fst res)) k = if inb k paths then newset else get (sfs st) k)
+  /\ (forall pre w suf, snd res = pre ++ w :: suf ->
+        In (fst w) paths /\ get (apply_writes e pre (sfs st)) (fst w) <> snd w
+        /\ (snd w = Z.lor oldset newset \/ snd w = newset))
+  /\ validb e (sfs (fst res)) = true
+  /\ coherent (scache (fst res)) (sfs (fst res)).
+Proof. exact main_be_two_phase. Qed.
+Print Assumptions c12_be_two_phase.
+
+Theorem c12_be_idle : forall e st paths oldset newset,
+  be_hyps e (sfs st) paths oldset newset = true -> coherent (scache st) (sfs st) -> newset <> 0 ->
+  Z.lor oldset newset = newset -> (forall p, In p paths -> get (sfs st) p = newset) ->
+  snd (be_apply e st paths oldset newset) = [].
+Proof. exact main_be_idle. Qed.
+Print Assumptions c12_be_idle.
+
+(* the order on cpu sets is containment of cpu ids *)
+Theorem c12_cpuset_containment : forall a b,
+  Z.land a b = a <-> (forall n, Z.testbit a n = true -> Z.testbit b n = true).
+Proof. exact subset_spec. Qed.
+Print Assumptions c12_cpuset_containment.
+
+(* ---- false of the faithful model (findings; shapes 2, 1, 3 of Codec.known_shape) ---- *)
+Theorem c12_no_redundant_write_cfs_v2_refuted :
+  exists e st levels, hyps_ok e (sfs st) levels = true /\ coherent (scache st) (sfs st)
+    /\ ~ no_redundant e (sfs st) (concat levels) (snd (leveled_update e st levels)).
+Proof. exact refuted_no_redundant_cfs_v2. Qed.
+Print Assumptions c12_no_redundant_write_cfs_v2_refuted.
+
+Theorem c12_legal_writes_cfs_v2_refuted :
+  exists e st levels, hyps_ok e (sfs st) levels = true /\ coherent (scache st) (sfs st)
+    /\ ~ legal e (snd (leveled_update e st levels)).
+Proof. exact refuted_legal_cfs_v2. Qed.
+Print Assumptions c12_legal_writes_cfs_v2_refuted.
+
+Theorem c12_be_unchanged_not_rewritten_refuted :
+  exists e st paths new,
+    be_hyps e (sfs st) paths (be_old (sfs st) paths None) new = true /\ coherent (scache st) (sfs st)
+    /\ ~ no_redundant e (sfs st) (be_updaters paths new)
+           (snd (be_apply e st paths (be_old (sfs st) paths None) new)).
+Proof. exact refuted_be_unchanged. Qed.
+Print Assumptions c12_be_unchanged_not_rewritten_refuted.
+
+(* regression for the repaired defect D3 (fix 93eb6d9): the old merge step ends at 0-3, the
+   current one at 2-3 through [0-3, 0-3, 2-3, 2-3] *)
+Theorem c12_d3_regression :
+  hyps_ok d3_env (sfs d3_st) d3_levels = true
+  /\ get (sfs (fst (leveled_update_old d3_env d3_st d3_levels))) 0 = 15
+  /\ get (sfs (fst (leveled_update d3_env d3_st d3_levels))) 0 = 12
+  /\ snd (leveled_update d3_env d3_st d3_levels) = [(0, 15); (1, 15); (1, 12); (0, 12)].
+Proof. exact d3_old_variant_refuted. Qed.
+Print Assumptions c12_d3_regression.
+
+(* ---- non-vacuity of the hypotheses ---- *)
+Example c12_hyps_nonvacuous :
+  validb ex_env ex_fs = true /\ hist_hyps ex_env (mkSt ex_fs []) ex_ops /\ Forall (plain_op ex_env) ex_ops.
+Proof. exact ex_history_hyps. Qed.
+
+Example c12_trace_nonvacuous :
+  map fst (run_hist ex_env (mkSt ex_fs []) ex_ops) =
+  [ [(0, 15); (1, 300); (2, 15); (3, 200); (4, 5); (5, 100); (4, 4); (2, 12); (0, 12)];
+    [(1, -1); (4, 12); (4, 8); (5, 20); (2, 8)] ].
+Proof. exact ex_history_trace. Qed.
+
+Example c12_be_hyps_nonvacuous :
+  be_hyps (mkEnv 1 [(0, 0); (1, 0); (2, 0)] [(1, 0); (2, 1)]) [(0, 3); (1, 3); (2, 1)] [0; 1; 2] 3 12 = true
+  /\ snd (be_apply (mkEnv 1 [(0, 0); (1, 0); (2, 0)] [(1, 0); (2, 1)]) (mkSt [(0, 3); (1, 3); (2, 1)] []) [0; 1; 2] 3 12)
+     = [(0, 15); (1, 15); (2, 15); (2, 12); (1, 12); (0, 12)].
+Proof. exact ex_be_hyps. Qed.
